@@ -65,10 +65,20 @@ func (p *ServerProg) Drop() {
 	_ = os.RemoveAll(filepath.Dir(p.Dir))
 }
 
+// BuildServerFromFile is BuildServer for a spec rendering given as file content with
+// the extension of name (.json / .yaml); not cached.
+func BuildServerFromFile(name string, content []byte, withClient bool, extra ...string) *ServerProg {
+	return buildServerNamed(content, "file:"+name+"\x00"+string(content)+strings.Join(extra, " "), withClient, extra, "swagger"+filepath.Ext(name))
+}
+
 func buildServer(specJSON []byte, key string, withClient bool, extra []string) *ServerProg {
+	return buildServerNamed(specJSON, key, withClient, extra, "swagger.json")
+}
+
+func buildServerNamed(specJSON []byte, key string, withClient bool, extra []string, fileName string) *ServerProg {
 	p := &ServerProg{WithClient: withClient}
 	p.Dir = NewModule("server:" + key)
-	specPath := filepath.Join(p.Dir, "swagger.json")
+	specPath := filepath.Join(p.Dir, fileName)
 	if err := os.WriteFile(specPath, specJSON, 0o644); err != nil {
 		panic(err)
 	}
